@@ -205,17 +205,38 @@ func c11StripHeader(frame []byte, flexible bool) ([]byte, bool) {
 }
 
 // c11Decode: the standard codec decodes body at (key, ver); canonical = its re-encoding is byte-identical.
-func c11Decode(key, ver int16, body []byte) (resp kmsg.Response, decodeErr error, canonical bool) {
-	resp = kmsg.ResponseForKey(key)
-	if resp == nil {
-		return nil, fmt.Errorf("codec has no response type for key %d", key), false
+//
+// The codec is run on its own goroutine under a watchdog: its tagged-field reader loops `count` times even after
+// the bytes are exhausted, so bytes that are NOT a well-formed message of that version (which is what this monitor is
+// looking for) can keep it busy for minutes. stuck=true decides nothing (=> inconclusive), the goroutine is abandoned.
+func c11Decode(key, ver int16, body []byte) (resp kmsg.Response, decodeErr error, canonical bool, stuck bool) {
+	if kmsg.ResponseForKey(key) == nil {
+		return nil, fmt.Errorf("codec has no response type for key %d", key), false, false
 	}
-	resp.SetVersion(ver)
-	if err := resp.ReadFrom(body); err != nil {
-		return resp, err, false
+	type out struct {
+		resp      kmsg.Response
+		err       error
+		canonical bool
 	}
-	return resp, nil, bytes.Equal(resp.AppendTo(nil), body)
+	ch := make(chan out, 1)
+	go func() {
+		rp := kmsg.ResponseForKey(key)
+		rp.SetVersion(ver)
+		if err := rp.ReadFrom(body); err != nil {
+			ch <- out{rp, err, false}
+			return
+		}
+		ch <- out{rp, nil, bytes.Equal(rp.AppendTo(nil), body)}
+	}()
+	select {
+	case o := <-ch:
+		return o.resp, o.err, o.canonical, false
+	case <-time.After(c11DecodeWatchdog):
+		return nil, errors.New("codec did not finish decoding"), false, true
+	}
 }
+
+const c11DecodeWatchdog = 20 * time.Second
 
 type c11Case struct {
 	Target     string `json:"target"`
@@ -226,6 +247,7 @@ type c11Case struct {
 	Corr       int32  `json:"correlation_id"`
 	ClientID   string `json:"client_id"`
 	Acks0      bool   `json:"acks0,omitempty"`
+	NoReplyOK  bool   `json:"-"` // configuration in which the statement does not demand a reply (backend down / proxy not ready)
 	RequestHex string `json:"request_hex"`
 	ReplyHex   string `json:"reply_hex,omitempty"`
 	Detail     string `json:"detail,omitempty"`
@@ -253,6 +275,8 @@ func c11Judge(r *verifkit.Run, cs c11Case, ex c11Exchange) kmsg.Response {
 		switch {
 		case cs.Acks0:
 			r.Count("acks0_no_reply", 1)
+		case cs.NoReplyOK:
+			r.Count("no_reply_in_degraded_config", 1)
 		case !cs.Advertised:
 			if ex.closed {
 				r.Count("unadvertised_connection_closed", 1)
@@ -291,12 +315,31 @@ func c11Judge(r *verifkit.Run, cs c11Case, ex c11Exchange) kmsg.Response {
 		return nil
 	}
 	hdrFlex := flex && cs.Key != 18 // KIP-511: the ApiVersions response header never has the tag section
+	// KIP-511: an ApiVersions request at a version the server does not support is answered in v0 encoding with
+	// UNSUPPORTED_VERSION (checked first: v0 has no tagged fields, so this decode is always cheap)
+	if cs.Key == 18 && !cs.Advertised {
+		if b0, ok := c11StripHeader(ex.reply, false); ok {
+			if r0, e0, c0, _ := c11Decode(18, 0, b0); e0 == nil && c0 && r0.(*kmsg.ApiVersionsResponse).ErrorCode == 35 {
+				r.Count("kip511_v0_fallback_replies", 1)
+				return nil
+			}
+		}
+	}
+	stuckNote := func(which string) {
+		r.Count("codec_decode_stuck", 1)
+		r.Inconclusive(fmt.Sprintf("%s %s v%d: the codec did not finish decoding the reply (%s) within %s; reply %s", cs.Target, api, cs.Version, which, c11DecodeWatchdog, c11Hex(ex.reply[:min(len(ex.reply), 64)])))
+	}
 	var resp kmsg.Response
 	var derr error
 	canonical := false
 	body, okHdr := c11StripHeader(ex.reply, hdrFlex)
 	if okHdr {
-		resp, derr, canonical = c11Decode(cs.Key, cs.Version, body)
+		var stuck bool
+		resp, derr, canonical, stuck = c11Decode(cs.Key, cs.Version, body)
+		if stuck {
+			stuckNote("expected header shape")
+			return nil
+		}
 	} else {
 		derr = errors.New("response header tag section malformed")
 	}
@@ -307,18 +350,12 @@ func c11Judge(r *verifkit.Run, cs c11Case, ex c11Exchange) kmsg.Response {
 		}
 		return resp
 	}
-	// KIP-511: an ApiVersions request at a version the server does not support is answered in v0 encoding with UNSUPPORTED_VERSION
-	if cs.Key == 18 && !cs.Advertised {
-		if b0, ok := c11StripHeader(ex.reply, false); ok {
-			if r0, e0, c0 := c11Decode(18, 0, b0); e0 == nil && c0 && r0.(*kmsg.ApiVersionsResponse).ErrorCode == 35 {
-				r.Count("kip511_v0_fallback_replies", 1)
-				return nil
-			}
-		}
-	}
 	// would it have been fine with the other header shape?
 	if alt, ok := c11StripHeader(ex.reply, !hdrFlex); ok {
-		if _, e, c := c11Decode(cs.Key, cs.Version, alt); e == nil && c {
+		_, e, c, stuck := c11Decode(cs.Key, cs.Version, alt)
+		if stuck {
+			stuckNote("other header shape")
+		} else if e == nil && c {
 			want, got := "without", "with"
 			if hdrFlex {
 				want, got = "with", "without"
@@ -347,6 +384,15 @@ type c11World struct {
 	groups  []string
 	members []string
 	seq     int
+	// onlyPartitionZero: the backend cannot be instrumented (proxy leg: broker is a child process), so requests that
+	// are known to make the broker handler spin forever (a partition index the topic does not have) are not sent
+	onlyPartitionZero bool
+}
+
+// c11Hooks lets a leg observe the server side around each exchange (the broker leg watches the metadata store).
+type c11Hooks struct {
+	before func()
+	after  func(cs c11Case)
 }
 
 func c11NewWorld() *c11World {
@@ -373,7 +419,7 @@ func (w *c11World) records(rng *rand.Rand) []byte {
 }
 
 func (w *c11World) opts() verifkreq.Opts {
-	return verifkreq.Opts{Tame: true, Tags: true, MaxArray: 3, Names: w.topics, Groups: w.groups, Members: w.members, Records: w.records}
+	return verifkreq.Opts{Tame: true, Tags: true, MaxArray: 3, Names: w.topics, Groups: w.groups, Members: w.members, Records: w.records, OnlyPartitionZero: w.onlyPartitionZero}
 }
 
 // gen builds one request body for (key, ver). Beyond the generic fill it biases a few requests towards the
@@ -389,7 +435,9 @@ func (w *c11World) gen(rng *rand.Rand, key, ver int16) kmsg.Request {
 			t := kmsg.NewProduceRequestTopic()
 			t.Topic = pickTopic()
 			p := kmsg.NewProduceRequestTopicPartition()
-			p.Partition = int32(rng.Intn(2))
+			if !w.onlyPartitionZero {
+				p.Partition = int32(rng.Intn(2))
+			}
 			p.Records = w.records(rng)
 			t.Partitions = append(t.Partitions, p)
 			q.Topics = append(q.Topics, t)
@@ -398,6 +446,11 @@ func (w *c11World) gen(rng *rand.Rand, key, ver int16) kmsg.Request {
 			if ver >= 13 {
 				q.Topics[i].TopicID = metadata.TopicIDForName(q.Topics[i].Topic)
 			}
+		}
+		if q.Acks == 0 && len(q.Topics) == 0 {
+			// never sent: the proxy forwards a topic-less produce raw and then waits for a backend reply that an
+			// acks=0 produce does not get, which blocks the client connection (observation, outside C11's statement)
+			q.Acks = 1
 		}
 	case *kmsg.FetchRequest:
 		if len(q.Topics) == 0 && rng.Intn(4) != 0 {
@@ -502,7 +555,7 @@ func c11Corr(rng *rand.Rand) int32 {
 
 // c11RunMatrix drives every advertised (key, version) and every other version in [0, codec max + 2] of every key
 // the codec knows against the server at addr and judges each reply.
-func c11RunMatrix(r *verifkit.Run, target, addr string, legSalt int) {
+func c11RunMatrix(r *verifkit.Run, target, addr string, legSalt int, requireReply bool, scale float64, partitionZeroOnly bool, hooks *c11Hooks) {
 	cl := &c11Client{addr: addr}
 	defer cl.close()
 	table, keys := c11Advertised(r, target, cl)
@@ -510,6 +563,7 @@ func c11RunMatrix(r *verifkit.Run, target, addr string, legSalt int) {
 		return
 	}
 	world := c11NewWorld()
+	world.onlyPartitionZero = partitionZeroOnly
 	var advText []string
 	for _, k := range keys {
 		advText = append(advText, fmt.Sprintf("%s(%d):%d-%d", kmsg.NameForKey(k), k, table[k].min, table[k].max))
@@ -523,7 +577,7 @@ func c11RunMatrix(r *verifkit.Run, target, addr string, legSalt int) {
 		cid := verifkreq.ClientID(rng)
 		corr := c11Corr(rng)
 		wire := verifkreq.Encode(req, corr, cid)
-		cs := c11Case{Target: target, API: kmsg.NameForKey(key), Key: key, Version: ver, Advertised: advertised, Corr: corr, RequestHex: c11Hex(wire)}
+		cs := c11Case{Target: target, API: kmsg.NameForKey(key), Key: key, Version: ver, Advertised: advertised, Corr: corr, RequestHex: c11Hex(wire), NoReplyOK: !requireReply}
 		if cid != nil {
 			cs.ClientID = *cid
 		} else {
@@ -532,8 +586,14 @@ func c11RunMatrix(r *verifkit.Run, target, addr string, legSalt int) {
 		if p, ok := req.(*kmsg.ProduceRequest); ok && p.Acks == 0 {
 			cs.Acks0 = true
 		}
+		if hooks != nil && hooks.before != nil {
+			hooks.before()
+		}
 		ex := cl.do(wire, true)
-		if ex.reply == nil && ex.closed && advertised && !cs.Acks0 {
+		if hooks != nil && hooks.after != nil {
+			hooks.after(cs)
+		}
+		if ex.reply == nil && ex.closed && advertised && !cs.Acks0 && requireReply {
 			// the connection died with the sentinel still unread on the server side; a reply written just before the close
 			// could have been discarded by the reset. Ask again without pipelining before judging.
 			r.Count("retries_without_pipelining", 1)
@@ -558,7 +618,13 @@ func c11RunMatrix(r *verifkit.Run, target, addr string, legSalt int) {
 			r.Sample(map[string]any{"target": target, "api": cs.API, "version": ver, "advertised": advertised, "request_hex": c11Hex(wire[:min(len(wire), 120)]), "reply_hex": c11Hex(ex.reply[:min(len(ex.reply), 120)])})
 		}
 	}
-	nAdv, nOther, nUnknown := r.N(10, 150), r.N(2, 20), r.N(1, 6)
+	sc := func(n int) int {
+		if m := int(float64(n) * scale); m >= 1 {
+			return m
+		}
+		return 1
+	}
+	nAdv, nOther, nUnknown := sc(r.N(10, 150)), sc(r.N(2, 20)), sc(r.N(1, 6))
 	// 1. advertised pairs
 	for _, k := range keys {
 		rg := table[k]
